@@ -163,6 +163,13 @@ package crlstore
 
 // ---- MapStore internals
 
+// MapStore.set never fails, so the error branches of its callers are dead code (proved, not covered)
+//@ dead MapStore.InsertRevokedCert return2
+//@ dead MapStore.StartUpdateCrl return2
+//@ dead MapStore.UpdateCRLLocations return2
+//@ dead MapStore.UpdateExtendedMetaInfo return2
+//@ dead MapStore.UpdateSignatureCertificate return1
+
 //@ func MapStore.set
 //@   props C01 C11 C18
 //@   requires S != nil && S.Map != nil
